@@ -130,7 +130,7 @@ Proof.
   - apply uw_winv.
   - destruct b; apply uw_winv.
   - apply ub_string_winv.
-  - destruct kd;
+  - destruct kd; try (destruct (z >? 127));
       first [ apply ub_int8_winv | apply ub_onint16_winv | apply ub_onint32_winv
             | apply ub_onint64_winv | apply ub_onint_winv | apply uw_winv
             | apply ub_uint8_winv | apply ub_uint64_winv | apply ub_float32_winv
@@ -346,7 +346,7 @@ Definition scalar_b (s : scalar) : bytes :=
   | SNum KInt32 z => onint32_b z
   | SNum KInt64 z => onint64_b z
   | SNum KInt z => onint_b z true
-  | SNum KByte z => [mC; z]
+  | SNum KByte z => if z >? 127 then uint8_b z true else [mC; z]
   | SNum KUint8 z => uint8_b z true
   | SNum (KUint16 | KUint32 | KUint64 | KUint) z => uint64_b z (uint_type z) true
   | SNum KFloat32 z => float32_b z true
@@ -503,7 +503,7 @@ Proof.
   - apply uw_outs0; exact H.
   - destruct b; apply uw_outs0; exact H.
   - apply ub_string_outs; exact H.
-  - destruct kd;
+  - destruct kd; try (destruct (z >? 127));
       first [ apply ub_int8_outs | apply ub_onint16_outs | apply ub_onint32_outs
             | apply ub_onint64_outs | apply ub_onint_outs | apply uw_outs0
             | apply ub_uint8_outs | apply ub_uint64_outs | apply ub_float32_outs
